@@ -12,7 +12,7 @@ def status(r):
         return '**missed -> strengthened**'
     if h.startswith('MISSED by the check as it stood'):
         return '**missed -> extended on reading the report**'
-    if h.startswith('MISSED') or h.startswith('missed by the check as it stood (fourth'):
+    if h.startswith('MISSED') or h.startswith('missed by the check as it stood (fourth') or h.startswith('missed by the check as it stood (fifth'):
         return '**missed -> strengthened**'
     if h.startswith('C02 caught it as it stood'):
         return 'caught by C02; owning check **missed -> strengthened**'
@@ -21,7 +21,7 @@ def status(r):
     return 'see history'
 L = ['### 10.4 Seeded breakages (independent sub-agents) and which checks catch them', '',
      '%d changes were written by fresh sub-agents that saw only one property text and a scratch worktree of the repository' % n,
-     '(nothing from /verif); the later rounds (ids -3/-4, -5/-6, -7/-8) were additionally told which mechanisms the earlier rounds had used. Each was',
+     '(nothing from /verif); the later rounds (ids -3/-4, -5/-6, -7/-8, -9/-10) were additionally told which mechanisms the earlier rounds had used. Each was',
      'verified before being kept (`tools/seedtest.sh`): it applies to its base commit, the 30 baseline tests still pass with it, its',
      'demonstration exits 0 on the unmodified tree and non-zero with the change, and the listed checks were run against the changed',
      'tree through `VERIF_REPO`. They are stored under `seeded/<id>/` (patch.diff, demo.py, notes.md, meta.json with the full history).', '',
